@@ -232,8 +232,20 @@ func (w *world) headerFields(e *env, x ast.Expr, prefix string, out map[string]v
 	return false
 }
 
-// respSpec translates GenEmptyResponse.
+// respSpec translates GenEmptyResponse: the shapes the code base uses are matched directly; anything else is
+// evaluated symbolically (resp.go)
 func (w *world) respSpec(pi pduInfo, getSeq string) string {
+	r := w.respSpecShapes(pi, getSeq)
+	if strings.HasPrefix(r, ".unknown") {
+		if r2, words := w.respByEval(pi, getSeq); r2 != "" {
+			w.lastSeqWords = words
+			return r2
+		}
+	}
+	return r
+}
+
+func (w *world) respSpecShapes(pi pduInfo, getSeq string) string {
 	fd, info := w.methodOf(pi.named, "GenEmptyResponse")
 	if fd == nil {
 		return `.unknown "no GenEmptyResponse"`
@@ -535,6 +547,11 @@ func (w *world) dispatchers() []string {
 			}
 			return "?"
 		}
+		isBoolLit := func(x ast.Expr, want bool) bool {
+			id, ok := unparen(x).(*ast.Ident)
+			return ok && ((want && id.Name == "true") || (!want && id.Name == "false"))
+		}
+		var okObj types.Object // `pdu, ok := newPDU(id)`
 		// the clauses of `switch tag { case C: <pdu = | return> new(T) … }`; assign=true: clause bodies assign to the PDU variable
 		var switchCases func(finfo *types.Info, sw *ast.SwitchStmt, assign bool, pdu types.Object) bool
 		switchCases = func(finfo *types.Info, sw *ast.SwitchStmt, assign bool, pdu types.Object) bool {
@@ -547,6 +564,9 @@ func (w *world) dispatchers() []string {
 					}
 					if !assign && len(cc.Body) == 1 {
 						if r, ok := cc.Body[0].(*ast.ReturnStmt); ok && len(r.Results) == 1 && isNil(r.Results[0]) {
+							continue
+						}
+						if r, ok := cc.Body[0].(*ast.ReturnStmt); ok && len(r.Results) == 2 && isNil(r.Results[0]) && isBoolLit(r.Results[1], false) {
 							continue
 						}
 					}
@@ -562,6 +582,8 @@ func (w *world) dispatchers() []string {
 						}
 					} else if r, ok := cc.Body[0].(*ast.ReturnStmt); ok && len(r.Results) == 1 {
 						tname = newType(finfo, r.Results[0])
+					} else if r, ok := cc.Body[0].(*ast.ReturnStmt); ok && len(r.Results) == 2 && isBoolLit(r.Results[1], true) {
+						tname = newType(finfo, r.Results[0]) // return new(T), true
 					}
 				}
 				for _, cx := range cc.List {
@@ -604,7 +626,8 @@ func (w *world) dispatchers() []string {
 				return false
 			}
 			if len(body) == 2 {
-				if r, ok := body[1].(*ast.ReturnStmt); !ok || len(r.Results) != 1 || !isNil(r.Results[0]) {
+				r, ok := body[1].(*ast.ReturnStmt)
+				if !ok || !((len(r.Results) == 1 && isNil(r.Results[0])) || (len(r.Results) == 2 && isNil(r.Results[0]) && isBoolLit(r.Results[1], false))) {
 					return false
 				}
 			}
@@ -641,6 +664,15 @@ func (w *world) dispatchers() []string {
 						}
 					}
 				}
+				// pdu, ok := newPDU(header.ID)
+				if len(s.Lhs) == 2 && len(s.Rhs) == 1 && pduObj == nil && s.Tok == token.DEFINE && !isErrVar(s.Lhs[1]) {
+					id0, ok0 := s.Lhs[0].(*ast.Ident)
+					id1, ok1 := s.Lhs[1].(*ast.Ident)
+					if ok0 && ok1 && types.Identical(info.TypeOf(id1), types.Typ[types.Bool]) && selectorCall(s.Rhs[0]) {
+						pduObj, okObj = info.ObjectOf(id0), info.ObjectOf(id1)
+						recognised = true
+					}
+				}
 				// header, err := pkg.PeekHeader(data)
 				if len(s.Lhs) == 2 && len(s.Rhs) == 1 && isErrVar(s.Lhs[1]) {
 					if c, ok := s.Rhs[0].(*ast.CallExpr); ok && len(c.Args) == 1 && isObj(e, c.Args[0], dataObj) {
@@ -662,9 +694,17 @@ func (w *world) dispatchers() []string {
 				if s.Else != nil || len(s.Body.List) != 1 {
 					break
 				}
+				// if !ok { return nil, sms.ErrUnsupportedPacket }
+				if u, isNot := unparen(s.Cond).(*ast.UnaryExpr); isNot && u.Op == token.NOT && okObj != nil && isObj(e, u.X, okObj) && s.Init == nil && isUnsupportedReturn(s.Body.List[0]) {
+					unknownIsErr = true
+					recognised = true
+				}
 				cond, ok := unparen(s.Cond).(*ast.BinaryExpr)
 				if !ok {
-					break
+					if !recognised {
+						cases = append(cases, fmt.Sprintf("(0, %s)", q("?unrecognised statement "+w.pos(st))))
+					}
+					continue
 				}
 				// if pdu == nil { return nil, sms.ErrUnsupportedPacket }
 				if cond.Op == token.EQL && isPdu(cond.X) && isNil(cond.Y) && s.Init == nil && isUnsupportedReturn(s.Body.List[0]) {
